@@ -50,12 +50,13 @@ class SyncWrappers(Lane):
     def mk_args(self, kinds):
         args = []
         for i, k in enumerate(kinds):
-            if k == 'str': args.append(StrV([z3.BitVec(f'a{i}_{j}', 8) for j in range(2)]))
-            elif k == 'scope': args.append(EnumV('Scope', 'OneLevel'))
-            elif k == 'attrs': args.append(VecV([StrV([z3.BitVec(f'at{i}', 8)])]))
+            c = self.c
+            if k == 'str': args.append(StrV([z3.BitVec(f'a{i}_{j}', 8) for j in range(c.choose(3, f'len{i}'))]))      # "", 1 or 2 symbolic bytes
+            elif k == 'scope': args.append(EnumV('Scope', ['Base', 'OneLevel', 'Subtree'][c.choose(3, f'scope{i}')]))
+            elif k == 'attrs': args.append(VecV([StrV([z3.BitVec(f'at{i}_{j}', 8)]) for j in range(c.choose(3, f'nattrs{i}'))]))
             elif k == 'bool': args.append(z3.Bool(f'b{i}'))
             elif k == 'i32': args.append(z3.BitVec(f'n{i}', 32))
-            elif k == 'optstr': args.append(Some(StrV([z3.BitVec(f'o{i}', 8)])))
+            elif k == 'optstr': args.append([NONE(), Some(StrV([])), Some(StrV([z3.BitVec(f'o{i}', 8)]))][c.choose(3, f'opt{i}')])                 # None | Some("") | Some(1 byte)
             elif k == 'adapters': args.append(VecV([]))
             else: args.append(Tokn(f'arg{i}'))
         return args
@@ -179,6 +180,15 @@ class SyncWrappers(Lane):
             scen.append({'name': 'answered', 'steps': [bind, step[m], {'do': 'last_id'}], 'server': [{'replies': [{'id': 'req', 'op': ok(1)}]}, {'replies': ([{'id': 'req', 'op': ok(resp[m])}] if m in resp else [])}]})
             scen.append({'name': 'peer closes before the operation', 'steps': [bind, {'do': 'delete', 'dn': 'dc=x'}, step[m], step[m], {'do': 'is_closed'}],
                          'server': [{'replies': [{'id': 'req', 'op': ok(1)}]}, {'replies': [], 'close_after': True}]})
+        if m == 'modifydn':
+            # argument shapes: new superior absent / empty (move under the root) / given; keep or delete the old RDN; empty DN
+            for k, (ns, dl, dn) in enumerate([(None, True, 'cn=o'), ('', True, 'cn=o'), ('', False, ''), ('dc=s', False, 'cn=o')]):
+                scen.append({'name': f'modifydn new_sup={ns!r} delete_old={dl} dn={dn!r}', 'steps': [bind, {'do': 'modifydn', 'dn': dn, 'rdn': 'cn=n', 'delete_old': dl, 'new_sup': ns}],
+                             'server': [{'replies': [{'id': 'req', 'op': ok(1)}]}, {'replies': [{'id': 'req', 'op': ok(13)}]}]})
+        if m in ('delete', 'compare', 'simple_bind', 'add', 'modify'):
+            e = dict(step[m]); e['dn'] = ''
+            if m == 'simple_bind': e['pw'] = ''
+            scen.append({'name': 'empty strings', 'steps': [bind, e], 'server': [{'replies': [{'id': 'req', 'op': ok(1)}]}, {'replies': [{'id': 'req', 'op': ok(resp[m])}]}]})
         if m in ('search', 'streaming_search', 'streaming_search_with', 'next', 'result', 'stream_last_id'):
             for ad in ([], ['EntriesOnly']):
                 scen.append({'name': f'stream read to the end, adapters={ad}', 'steps': [bind, {'do': 'stream_start', 'adapters': ad, 'base': 'dc=x', 'scope': 2, 'filter': '(a=b)', 'attrs': ['cn']},
@@ -222,7 +232,7 @@ class SyncWrappers(Lane):
 
 def body(chk):
     allm = list(METHODS) + STREAM_METHODS + SIMPLE
-    run_lane(chk, SyncWrappers, (), bounds={'methods': allm, 'async callee': 'uninterpreted: records arguments, resolves to Ok(token) or Err(token)', 'arguments': 'symbolic strings/scalars, opaque tokens for generic values'},
+    run_lane(chk, SyncWrappers, (), bounds={'methods': allm, 'async callee': 'uninterpreted: records arguments, resolves to Ok(token) or Err(token)', 'arguments': 'strings of 0..2 symbolic bytes, every scope, 0..2 attributes, optional strings None / Some("") / Some(1 byte), symbolic scalars, opaque tokens for generic values'},
              selftest=False, need_regions=tuple(allm))
     chk.assumptions += [
         'Runtime::block_on(f) is modelled as "poll f to completion"; the tokio runtime itself, and therefore equality of wire bytes, rests on the forwarded call being the only effect (trusted)',
